@@ -434,11 +434,21 @@ def run(ck):
                 c = float(cov[len(cov) // 2])
                 cases.append(("hk_sf_corr", {"c_point": c}, 1 + 1 / c * math.log(1 - c)))
             # (c) widths non-decreasing in pressure: as a function of pressure, whatever the order of the points in the call
-            by_p = sorted(range(len(L)), key=lambda k: ps[k])
+            # (only over the points at which the library did solve its own equation: where the potential equation has no root - pressures below the
+            #  potential's minimum next to the geometric bound, a Rege-Yang jump - the solver returns the argmin of the misfit, a width with no meaning)
+            by_p = [k for k in sorted(range(len(L)), key=lambda k: ps[k]) if k < len(resid) and resid[k] <= CERT_TOL]
             Ls = [L[k] for k in by_p]
             if any(b < a - 1e-4 for a, b in zip(Ls, Ls[1:])):
                 j = next(k for k in range(len(Ls) - 1) if Ls[k + 1] < Ls[k] - 1e-4)
-                ck.fail_case({**sig, "clause": "pore widths decrease with pressure", "cheng_yang": bool(r["cy"])},
+                # which root of the potential equation was reported: the potentials of the curved geometries fall from the geometric bound to a minimum
+                # and rise to 0 afterwards, so a pressure above the minimum has TWO roots; the physical one lies on the rising branch (widths then grow
+                # with pressure), the bounded minimiser may also stop at the one on the falling branch (finding S52-C17)
+                try:
+                    lj = L[by_p[j + 1]]
+                    falling = bool(float(r["fun"](lj * (1 + 1e-5))) < float(r["fun"](lj)))
+                except Exception:  # noqa
+                    falling = False
+                ck.fail_case({**sig, "clause": "pore widths decrease with pressure", "cheng_yang": bool(r["cy"]), "root_on_falling_branch_of_potential": falling},
                              {**detail, "index": by_p[j], "next_higher_pressure_at_index": by_p[j + 1], "pressures_sorted": [ps[k] for k in by_p[max(0, j - 1):j + 3]], "widths": Ls[max(0, j - 1):j + 3]})
             # (d) bookkeeping: cumulative volume is the adsorbed amount as liquid volume; distribution is the finite-difference derivative
             m = len(L)
